@@ -183,6 +183,9 @@ fn mutate(rng: &mut Rng, doc: &mut Nj, root: &str) -> Option<(String, &'static s
             } else {
                 scalar(rng)
             };
+            if (key == "type" || key == "name") && matches!(v, Nj::Int(_)) {
+                return None;
+            }
             if let Nj::Obj(kvs) = at_mut(doc, &p) {
                 let dup = |k: &str| kvs.iter().any(|(k2, _)| k2 == k);
                 // never create duplicate keys, directly or through an alias pair
@@ -246,6 +249,15 @@ fn mutate(rng: &mut Rng, doc: &mut Nj, root: &str) -> Option<(String, &'static s
             if std::mem::discriminant(&old) == std::mem::discriminant(&new) {
                 return None;
             }
+            // a tag given as variant index is outside the model: serde accepts it only when the enum is read from
+            // buffered content (inside another tagged / untagged enum)
+            if let (Some((last, parent)), Nj::Int(_)) = (p.split_last(), &new) {
+                if let Nj::Obj(kvs) = at(doc, parent) {
+                    if kvs[*last].0 == "type" || kvs[*last].0 == "name" {
+                        return None;
+                    }
+                }
+            }
             *at_mut(doc, &p) = new;
             Some(("scalar of another kind".into(), "any"))
         }
@@ -265,8 +277,7 @@ fn mutate(rng: &mut Rng, doc: &mut Nj, root: &str) -> Option<(String, &'static s
         12 => {
             let p = pick_where(rng, doc, &|n| matches!(n, Nj::Obj(kvs) if kvs.iter().any(|(k, v)| (k == "type" || k == "name") && matches!(v, Nj::Str(_)))))?;
             if let Nj::Obj(kvs) = at_mut(doc, &p) {
-                // another tag name, or — serde accepts it for internally tagged enums — a variant index
-                let t = if rng.chance(1, 3) { Nj::Int(rng.range(-1, 18) as i128) } else { Nj::Str(rng.pick(TAGS).to_string()) };
+                let t = Nj::Str(rng.pick(TAGS).to_string());
                 kvs.iter_mut().filter(|(k, _)| k == "type" || k == "name").for_each(|(_, v)| *v = t.clone());
             }
             Some(("tag changed".into(), "any"))
@@ -289,10 +300,10 @@ fn mutate(rng: &mut Rng, doc: &mut Nj, root: &str) -> Option<(String, &'static s
 }
 
 pub fn gen_part1(rng: &mut Rng, tier: Tier, cases: &mut Vec<Value>) {
-    let scale = if tier == Tier::Thorough { 25 } else { 1 };
+    let scale = if tier == Tier::Thorough { 20 } else { 1 };
     let roots = ["Problem", "Solution", "Matrix"];
     // typed documents, simple floats: exact comparison with the model
-    for i in 0..(260 * scale) {
+    for i in 0..(420 * scale) {
         let root = roots[i % 3];
         let fill = [0, 8, 4, 6, 2][(i / 3) % 5];
         let (doc, dbg) = typed_doc_dbg(rng, root, true, fill);
@@ -300,13 +311,13 @@ pub fn gen_part1(rng: &mut Rng, tier: Tier, cases: &mut Vec<Value>) {
         cases.push(json!({"k": "rt", "root": root, "doc": doc.to_value(), "value": dbg}));
     }
     // arbitrary float bit patterns: real side only, 1 ulp slack
-    for i in 0..(60 * scale) {
+    for i in 0..(120 * scale) {
         let root = roots[i % 3];
         let doc = typed_doc(rng, root, false, 5);
         cases.push(json!({"k": "fbits", "root": root, "doc": doc.to_value()}));
     }
     // foreign stream
-    for i in 0..(900 * scale) {
+    for i in 0..(1800 * scale) {
         let root = roots[i % 3];
         let orig = typed_doc(rng, root, true, [6, 8, 3][(i / 3) % 3]);
         let mut doc = orig.clone();
